@@ -30,6 +30,7 @@ type PropDef struct {
 	ID          string
 	Funcs       []FuncCheck
 	Asm         bool // include the amd64 assembly obligations (node16)
+	Lemmas      bool // include the induction proofs of the counting lemmas
 	Trusted     []string
 	Assumptions []string
 	Floor       int // vacuity: minimal number of obligations
@@ -335,6 +336,10 @@ func runProp(def *PropDef, cfg *SolverCfg, tier string) *checkResult {
 		res.obs = append(res.obs, aobs...)
 		res.asmNotes = notes
 		res.funcs = append(res.funcs, "searchNode16 [node16_amd64.s]", "insertPosNode16 [node16_amd64.s]")
+	}
+	if def.Lemmas {
+		res.obs = append(res.obs, lemmaObligations()...)
+		res.funcs = append(res.funcs, "cntP / cntNZ counting lemmas (govc/lemmas.go, induction)")
 	}
 	all := append(append([]*Obligation{}, res.obs...), res.covers...)
 	DischargeAll(all, st, cfg, runtime.NumCPU())
